@@ -46,9 +46,7 @@ def oracleOf (j : Lean.Json) : Except String Oracle := do
   let defs ← (← getArr j "defs").mapM fun e => match e with
     | Lean.Json.arr #[Lean.Json.str s, n] => do pure (s.toList, ← asNat n)
     | _ => .error "defs entries must be [string, n]"
-  let repna ← (← getArr j "repna").mapM fun e => match e with
-    | Lean.Json.arr #[Lean.Json.str t, Lean.Json.str r, Lean.Json.str res] => pure ((t.toList, r.toList), res.toList)
-    | _ => .error "repna entries must be [text, ref, result]"
+  let dx ← (← getArr j "defexpand").mapM asStr
   let di ← (← getArr j "defissues").mapM fun e => match e with
     | Lean.Json.arr #[Lean.Json.str k, Lean.Json.str c, sev, col, key] => do
         pure (⟨k.toList, c.toList, ← asNat sev, optStr col, optStr key⟩ : Issue)
@@ -56,8 +54,8 @@ def oracleOf (j : Lean.Json) : Except String Oracle := do
   pure { basic := fun s => ((basic.find? (·.1 == s)).map (·.2)).getD (miss "BASIC")
          full := fun s => ((full.find? (·.1 == s)).map (·.2)).getD (miss "FULL")
          defCount := fun s => ((defs.find? (·.1 == s)).map (·.2)).getD 0
-         repNa := fun t r => ((repna.find? (·.1 == (t, r))).map (·.2)).getD ("ORACLE-MISS-REPNA".toList)
-         defIssues := di }
+         defIssues := di
+         isDefExpand := fun t => dx.contains t }
 
 def issueJson (i : Issue) : Lean.Json :=
   jarr [jstr i.kind, jstr i.code, jnat i.sev, jopt jstr i.col, jopt jstr i.key]
@@ -95,6 +93,14 @@ def handle (op : String) (j : Lean.Json) : Option (Except String Lean.Json) :=
       let new ← getStr j "new"
       pure <| jobj [("braces", jarr ((braces s).map jnat)), ("refs", jarr ((findRefs s).map jstr)),
                     ("replaced", jstr (replaceAll s old new))]
+  | "c08.replaceref" => some do   -- `df_util.replace_ref(text, "{ref}", value)`
+      pure <| jobj [("out", jstr (Assemble.replaceRef (← getStr j "text") (← getStr j "ref") (← getStr j "value")))]
+  | "c08.treehash" => some do     -- `#` counted by `_validate_pound_sign_count`, and whether `shrink_defs` raises unguarded
+      let s ← getStr j "s"
+      let dx ← (← getArr j "defexpand").mapM asStr
+      let O : Oracle := { basic := fun _ => [], full := fun _ => [], defCount := fun _ => 0, defIssues := [],
+                          isDefExpand := fun t => dx.contains t }
+      pure <| jobj [("hash", jnat (treeHash O s)), ("twice", jbool (twiceList O s (entryTree s)))]
   | "c08.kind" => some do
       let e ← decode (← getVal j "entry")
       let f := fun b => match detect b e with
